@@ -9,20 +9,36 @@ RULE = ("cases: operation scripts of 1..60 operations. prevector<N,T> for N in {
         "CScriptBase) on a pair of vectors: push/pop/insert(1, n, range)/erase(1, range)/resize/reserve/shrink_to_fit/clear/"
         "assign/operator[]/resize_uninitialized/swap/copy+move assign/copy+move/fill/range/size constructors, sizes steered "
         "to N-1, N, N+1 and to the growth points; VecDeque<int> on a pair of deques: push/pop at both ends, resize, reserve, "
-        "shrink_to_fit, clear, operator[], swap, copy/move assign and construct, steered to wrap-around and to size == capacity. "
-        "After every operation both drivers print capacity (and m_offset) and all elements; the predicate compares the "
-        "elements with the std::vector/std::deque semantics of the script. Non-trivial = at least 3 operations; distinct = "
-        "distinct case lines.")
+        "shrink_to_fit, clear, operator[], swap, copy/move assign and construct, steered to wrap-around and to size == capacity; "
+        "bitdeque<B> for B in {1,3,8,128} on a pair: push/pop both ends, resize, clear, assign(n,v)/assign(range), insert(1, n, "
+        "range), erase(1, range, empty range), operator[], swap, copy-assign, sizes steered to k*B-1, k*B, k*B+1; "
+        "PoolResource<MAXB,ALIGN>(chunk) for (128,8) (8,8) (64,16) (144,8) (32,1) (16,4) and chunk sizes from MAXB to 4*MAXB (also "
+        "not multiples of the alignment): Allocate(bytes, alignment)/Deallocate scripts over few size classes (0, 1, EA-1, EA, EA+1, "
+        "MAXB-1, MAXB, MAXB+1, over-aligned), LIFO/FIFO/random frees, chunk exhaustion with and without leftover. "
+        "After every operation both drivers print the internal observables (capacity; capacity+m_offset; block count+both pads; "
+        "returned address relative to its chunk + NumAllocatedChunks + unused bytes + every free list) and all elements; the "
+        "predicate compares the elements with the std::vector/std::deque semantics of the script, and for the pool checks "
+        "alignment, chunk containment, non-overlap with every live allocation and the exact accounting equation on the addresses "
+        "the implementation returned. A crashing implementation yields the result CRASH for that case. Non-trivial = at least 3 "
+        "operations; distinct = distinct case lines.")
 ASSUMPTIONS = ["element counts stay below 2^31 (prevector's uint32_t size arithmetic and size_t arithmetic are modelled in nat, no wrap)",
-               "memcpy/memmove/realloc/std::fill_n/std::allocator are modelled by their contracts on a list of slots; uninitialised "
-               "memory is one arbitrary value (the theorems hold for every such value and never expose it)",
-               "the Gallina models are hand transcriptions of prevector.h / vecdeque.h, tied by the correspondence on the listed cases",
+               "memcpy/memmove/realloc/std::fill_n/std::allocator/std::move/std::move_backward/std::deque<std::bitset>/::operator new are "
+               "modelled by their contracts; uninitialised memory is one arbitrary value (the theorems hold for every such value "
+               "and never expose it)",
+               "pool theorems carry the premises: MAXB mod ELEM_ALIGN = 0 (static_assert), ELEM_ALIGN <= MAXB (not asserted in pool.h), "
+               "::operator new returns ELEM_ALIGN-aligned chunks that do not overlap; alignof(ListNode) = 8; every Deallocate returns a "
+               "live allocation with the bytes/alignment it was requested with",
+               "bitdeque: std::move(first,last,first) (self-move, done by erase(p,p) and insert(p,0,v)) is treated as the no-op it is in "
+               "every standard library although [alg.move] formally excludes it",
+               "the Gallina models are hand transcriptions of prevector.h / vecdeque.h / bitdeque.h / pool.h, tied by the correspondence "
+               "on the listed cases",
                "C++ memory safety beyond index arithmetic (aliasing, lifetime, exception safety) is not claimed",
                "moved-from VecDeque: the specification uses the documented swap behaviour"]
 TRUSTED = ["Coq 8.16.1 kernel (coqc; no native_compute)",
-           "extraction: ExtrOcamlBasic only; ocaml/conv.ml + cont_driver.ml glue (mnemonic -> opcode table, printing)",
-           "tie/drivers/cont_drv.cpp runs the scripts on the real containers and prints size/capacity/elements "
-           "(m_offset read through `#define private public`)"]
+           "extraction: ExtrOcamlBasic only; ocaml/conv.ml + cont_driver.ml glue (mnemonic -> opcode table, printing/parsing)",
+           "tie/drivers/cont_drv.cpp runs the scripts on the real containers and prints size/capacity/elements; private fields "
+           "(m_offset, m_deque.size(), m_pad_begin/end) are read by compiling the two headers with `#define private public` / "
+           "`#define class struct`; the pool internals through a driver-defined `PoolResourceTester` (the friend class pool.h names)"]
 
 VALS = lambda rng: rng.randrange(0, 256)
 
@@ -248,6 +264,50 @@ def gen_bd(rng, tier):
 
 
 # ---------------------------------------------------------------------------------------------------
+POOL_CONFIGS = [(128, 8), (8, 8), (64, 16), (144, 8), (32, 1), (16, 4)]
+
+
+def gen_pool_script(rng, maxb, align, length):
+    ea = max(8, align)
+    nlive = 0
+    ops = []
+    # few size classes so that free lists get reused; boundary sizes of the classes and of the pool limit
+    sizes = [0, 1, ea - 1, ea, ea + 1, 2 * ea, maxb - ea + 1, maxb - 1, maxb, maxb + 1, 3 * maxb]
+    sizes = [x for x in sizes if x >= 0]
+    favourite = [rng.choice(sizes[:9]) for _ in range(rng.randrange(1, 4))]
+    mode = rng.choice(["mix", "fill", "lifo", "fifo"])
+    for _ in range(length):
+        r = rng.random()
+        if nlive and ((mode == "mix" and r < 0.4) or (mode in ("lifo", "fifo") and r < 0.45) or (mode == "fill" and r < 0.15)):
+            if mode == "lifo":
+                i = nlive - 1
+            elif mode == "fifo":
+                i = 0
+            else:
+                i = rng.randrange(0, nlive)
+            ops.append("f:%d" % i); nlive -= 1
+        else:
+            b = rng.choice(favourite) if rng.random() < 0.7 else rng.choice(sizes + [rng.randrange(0, maxb + 2)])
+            al = rng.choice([1, 2, 4, 8, 8, 8, ea, ea, 2 * ea, 64])
+            ops.append("a:%d:%d" % (b, al)); nlive += 1
+    return ops
+
+
+def gen_pool(rng, tier):
+    cases = []
+    nper = 60 if tier == "quick" else 1500
+    for (maxb, align) in POOL_CONFIGS:
+        ea = max(8, align)
+        # exhaust a chunk exactly / with a leftover that must go to a free list
+        cases.append("pool %d %d %d %s" % (maxb, align, maxb, " ".join(["a:%d:1" % ea] * (maxb // ea + 2))))
+        cases.append("pool %d %d %d a:%d:1 a:%d:1 a:%d:1 f:0 f:0 f:0 a:%d:1 a:%d:1" % (maxb, align, maxb + ea, maxb - ea + 1, ea, maxb, ea, maxb))
+        for _ in range(nper):
+            chunk = rng.choice([maxb, maxb + 1, maxb + ea, 2 * maxb, 2 * maxb + ea - 1, rng.randrange(maxb, 4 * maxb + 1)])
+            cases.append("pool %d %d %d %s" % (maxb, align, chunk, " ".join(gen_pool_script(rng, maxb, align, rng.randrange(1, 61)))))
+    return cases
+
+
+# ---------------------------------------------------------------------------------------------------
 def shrink_ops(nfixed):
     """drop one operation at a time (later operations first), keeping the first nfixed tokens"""
     def f(case):
@@ -265,7 +325,7 @@ def nontrivial(c):
 
 def classify(c):
     w = c.split(" ")
-    return w[0] + (w[1] if w[0] in ("pv", "bd") else "")
+    return w[0] + (w[1] if w[0] in ("pv", "bd") else "") + (("%s/%s" % (w[1], w[2])) if w[0] == "pool" else "")
 
 
 TIES = [Tie("prevector", "tie/drivers/cont_drv.cpp", "Extract_Cont.v", "cont_driver.ml", gen_pv,
@@ -273,15 +333,21 @@ TIES = [Tie("prevector", "tie/drivers/cont_drv.cpp", "Extract_Cont.v", "cont_dri
         Tie("vecdeque", "tie/drivers/cont_drv.cpp", "Extract_Cont.v", "cont_driver.ml", gen_vd,
             predicate="driver", nontrivial=nontrivial, classify=classify, shrink=shrink_ops(1)),
         Tie("bitdeque", "tie/drivers/cont_drv.cpp", "Extract_Cont.v", "cont_driver.ml", gen_bd,
-            predicate="driver", nontrivial=nontrivial, classify=classify, shrink=shrink_ops(2))]
+            predicate="driver", nontrivial=nontrivial, classify=classify, shrink=shrink_ops(2)),
+        Tie("pool", "tie/drivers/cont_drv.cpp", "Extract_Cont.v", "cont_driver.ml", gen_pool,
+            predicate="driver", nontrivial=lambda c: len(c.split(" ")) >= 7, classify=classify, shrink=shrink_ops(4))]
 
-LEVEL_TEXT = ("Coq theorems, for every element type and every inline size N: every operation script on prevector (resp. VecDeque) "
-              "models of the representation (raw _size encoding + inline array + heap array + capacity; ring buffer + offset + size + "
-              "capacity) keeps the representation invariant, performs only in-bounds slot accesses, and after every operation holds "
-              "exactly the std::vector (resp. std::deque) contents; proved by induction over all scripts from per-operation refinement "
-              "lemmas. Models tied to prevector.h / vecdeque.h by differential execution of operation scripts (contents, capacity, offset "
-              "after every operation).")
-LEVEL_NOTE = ("Trusted: Coq kernel; extraction and OCaml/C++ glue; the model is a hand transcription checked by correspondence, not by a "
-              "semantics of C++. libc/std primitives (memmove, realloc, std::allocator) are modelled by their contracts. Integer widths of "
-              "the size fields are not modelled (sizes < 2^31).")
+LEVEL_TEXT = ("Coq theorems about models of the REPRESENTATIONS: prevector (raw _size encoding + inline array + heap array + capacity, "
+              "every element type, every N), VecDeque (ring buffer + offset + size + capacity), bitdeque (all block bits + block count + "
+              "front/back pad, every block size B>0, including a transcription of Iterator::operator+=) and PoolResource (chunk list, "
+              "per-class free lists, bump pointer over integer addresses). For every operation script (induction over all scripts from "
+              "per-operation refinement lemmas): the representation invariant is preserved, every slot access / free-list index is in "
+              "bounds, and after every operation the container holds exactly the std::vector / std::deque / std::deque<bool> contents; "
+              "for the pool: live allocations are pairwise disjoint, aligned, inside chunks and disjoint from free-listed blocks, "
+              "blocks are reused only through the free list of their own size class, and live + free-listed + unused bytes = "
+              "chunks * chunk size. Models tied to the four headers by differential execution of scripts comparing contents AND "
+              "internal observables after every operation.")
+LEVEL_NOTE = ("Trusted: Coq kernel; extraction and OCaml/C++ glue; the models are hand transcriptions checked by correspondence, not by a "
+              "semantics of C++. libc/std primitives are modelled by their contracts. Integer widths of the size fields are not modelled "
+              "(sizes < 2^31). Pool theorems are relative to the stated premises on ::operator new and the template parameters.")
 TECHNIQUE = "Coq proof (data refinement, induction over operation scripts) + differential correspondence with shrinking"
